@@ -154,13 +154,52 @@ fn decomposition(ctx: &mut Ctx) {
             ctx.rec.cover(&format!("decomp|e{}|d{}", edge, dim));
         }
     }
-    // euclidean_distance
-    for (a, b, want) in [(vec![0usize, 0], vec![3usize, 4], Some(5.0f32)), (vec![1], vec![1], Some(0.0)), (vec![1, 2], vec![1], None), (vec![], vec![], Some(0.0))] {
+    // euclidean_distance: fixed cases, then random coordinate vectors against an f64 oracle
+    // (coordinates below 2^12 so that every squared difference is exact in f32; tolerance 4 ulps),
+    // plus symmetry, identity and the length-mismatch rule
+    for (a, b, want) in [(vec![0usize, 0], vec![3usize, 4], Some(5.0f32)), (vec![1], vec![1], Some(0.0)), (vec![1, 2], vec![1], None), (vec![], vec![], Some(0.0)), (vec![], vec![0], None), (vec![0, 0, 0], vec![2, 3, 6], Some(7.0)), (vec![9, 1], vec![1, 7], Some(10.0))] {
         let got = Topology::euclidean_distance(&a, &b);
         ctx.rec.count("distance_checks", 1);
         if got != want {
             ctx.rec.violation("C20", "euclidean_distance|mismatch", &format!("{:?} {:?} -> {:?} expected {:?}", a, b, got, want), "");
         }
+    }
+    let nd = ctx.n(20000, 400000);
+    for k in 0..nd as u64 {
+        if !ctx.mine(k) {
+            continue;
+        }
+        let mut r = Rng::derive(ctx.seed, &[20, 7, k]);
+        let la = r.below(7);
+        let lb = if r.chance(1, 6) { r.below(7) } else { la };
+        let hi = *r.pick(&[2usize, 5, 40, 4000]);
+        let a: Vec<usize> = (0..la).map(|_| r.below(hi)).collect();
+        let mut b: Vec<usize> = (0..lb).map(|_| r.below(hi)).collect();
+        if la == lb && r.chance(1, 8) {
+            b = a.clone();
+        }
+        let got = guarded(|| (Topology::euclidean_distance(&a, &b), Topology::euclidean_distance(&b, &a)));
+        ctx.rec.count("distance_checks", 1);
+        let (ab, ba) = match got {
+            Ok(x) => x,
+            Err(p) => {
+                ctx.rec.violation("C20", &format!("euclidean_distance|panic|{}", panic_sig(&p)), &format!("{} ; {:?} {:?}", p, a, b), "");
+                continue;
+            }
+        };
+        let want = if la != lb { None } else { Some(a.iter().zip(b.iter()).map(|(x, y)| (*x as f64 - *y as f64).powi(2)).sum::<f64>().sqrt()) };
+        let ok = match (ab, want) {
+            (None, None) => true,
+            (Some(g), Some(w)) => {
+                let w32 = w as f32;
+                g.is_finite() && (g == w32 || (g.to_bits() as i64 - w32.to_bits() as i64).abs() <= 4) && (a != b || g == 0.0)
+            }
+            _ => false,
+        };
+        if !ok || ab.map(f32::to_bits) != ba.map(f32::to_bits) {
+            ctx.rec.violation("C20", "euclidean_distance|mismatch", &format!("{:?} {:?} -> {:?} / reversed {:?}, expected {:?}", a, b, ab, ba, want), "");
+        }
+        ctx.rec.cover(&format!("dist|len{}|{}|hi{}", la, if la != lb { "mismatch" } else if a == b { "same" } else { "differ" }, hi));
     }
 }
 
